@@ -10,9 +10,14 @@
   it and writing the returned structures back emits the very same bytes — this needs that
   first-appearance folding is idempotent on the column metadata the reader rebuilds
   (`tm_rewrite_identity`, via the combinatorial lemma `fa_rebuilt` of Sbdf/Lemmas/FirstApp.lean).
-  NOT proved: the clause about FOREIGN streams ("writing what was read either fails or produces a
-  stream that reads back to the same logical content"); `rewrite_identity_partial` covers their
-  slices and table-level entries, the rest is covered by the correspondence only.
+  (5) `foreign_rewrite`: for EVERY well-formed physical stream (the layouts the reader accepts:
+  any name list, repeated or unused names, repeated table-level names), writing what the reader
+  returned either fails in sbdf_tm_write with INCORRECT_METADATA (exactly when the column
+  metadata does not fold) or emits a stream that reads back OK to the same table-level entries,
+  the same slices, end-of-table, and per column the same value under every name
+  (`reader_output_api`: the reader's output meets the hypotheses of C01.api_roundtrip).
+  `absent_table_value_refused`: the one accepted layout outside PhysTM (a table-level entry
+  without a value) makes sbdf_tm_write fail.
 -/
 import Sbdf.Props.C03
 import Sbdf.Props.C04
@@ -342,15 +347,16 @@ theorem rewrite_identity (c : Cfg) (tm : TM) (slices : List (List CS)) (kept : L
   -- the bytes are those of the canonical layout
   have hb : bytes = C04.file c (C03.canonPhys tm kept) slices := by
     obtain ⟨_, hall, _⟩ := fold_facts _ kept h.fold
-    have mdw : ∀ (m : Md), C10.Inv m → (∀ e ∈ m.entries, fitsStr c e.name.length ∧
+    have mdw : ∀ (m : Md), (∀ e ∈ m.entries, ∃ v, e.value = some v ∧ v.count = 1 ∧
+        (∀ d, e.dflt = some d → d.tid = v.tid ∧ d.count = 1)) → (∀ e ∈ m.entries, fitsStr c e.name.length ∧
         (∀ v, e.value = some v → v.Fits c ∧ v.tid < 256) ∧ (∀ d, e.dflt = some d → d.Fits c ∧ d.tid < 256)) →
         C03.MdWritable m := by
       intro m hi hfit e he
-      obtain ⟨v, hv, _, _⟩ := hi.single e he
+      obtain ⟨v, hv, _, _⟩ := hi e he
       obtain ⟨_, hfv, hfd⟩ := hfit e he
       exact ⟨⟨v, hv, C01.writable_of_fits (hfv v hv).1⟩, fun d hd => C01.writable_of_fits (hfd d hd).1⟩
-    have := C03.file_bytes c tm slices kept h.fold (mdw _ h.tabInv h.tabFit)
-      (fun col hcol => mdw col (h.colInv col hcol) (h.colFit col hcol))
+    have := C03.file_bytes c tm slices kept h.fold (mdw _ h.tabSingle h.tabFit)
+      (fun col hcol => mdw col (h.colInv col hcol).single (h.colFit col hcol))
       (fun k hk d hd => by
         obtain ⟨col, hcol, hkc⟩ := C01.entry_of_kept hall hk
         exact C01.writable_of_fits ((h.colFit col hcol k hkc).2.2 d hd).1)
@@ -364,7 +370,7 @@ theorem rewrite_identity (c : Cfg) (tm : TM) (slices : List (List CS)) (kept : L
   apply C03.file_bytes c _ slices kept' hfold'
   · -- table-level entries of what was read are those that were written
     intro e he
-    obtain ⟨v, hv, _, _⟩ := h.tabInv.single e he
+    obtain ⟨v, hv, _, _⟩ := h.tabSingle e he
     obtain ⟨_, hfv, hfd⟩ := h.tabFit e he
     exact ⟨⟨v, hv, C01.writable_of_fits (hfv v hv).1⟩, fun d hd => C01.writable_of_fits (hfd d hd).1⟩
   · -- the rebuilt column metadata is serialisable
@@ -389,5 +395,277 @@ theorem rewrite_identity (c : Cfg) (tm : TM) (slices : List (List CS)) (kept : L
     exact C01.writable_of_fits ((h.colFit colk hcolk k hkc).2.2 d hd).1
   · intro s hs x hx
     exact C01.cs_writable_of_fits ((hf s hs).1 x hx)
+
+
+/-! ### foreign streams: whatever the reader accepts is stable under serialisation -/
+
+/-- what the column builder of the reader leaves behind: the entries it started with followed by
+    one entry per present value, and the C10 invariant is kept -/
+theorem buildCol_entries (names : List NameRow) (pc : List (Option Obj)) (m m' : Md)
+    (hlen : pc.length = names.length) (h : buildCol names pc m = .ok m') :
+    m'.entries = m.entries ++ C01.rebuilt names pc ∧ (C10.Inv m → C10.Inv m') := by
+  induction names generalizing pc m with
+  | nil =>
+    cases pc with
+    | nil => simp [buildCol] at h; subst h; simp [C01.rebuilt]
+    | cons o os => simp at hlen
+  | cons r rs ih =>
+    cases pc with
+    | nil => simp at hlen
+    | cons o os =>
+      simp only [List.length_cons, Nat.add_right_cancel_iff] at hlen
+      cases o with
+      | none =>
+        simp only [buildCol] at h
+        simpa [C01.rebuilt] using ih os m hlen h
+      | some v =>
+        simp only [buildCol] at h
+        cases ha : Md.add r.name v r.dflt m with
+        | error e => simp [ha] at h
+        | ok m1 =>
+          simp only [ha] at h
+          obtain ⟨he, hi⟩ := ih os m1 hlen h
+          obtain ⟨he1, _⟩ := C10.add_ok _ _ _ _ _ ha
+          refine ⟨by rw [he, he1]; simp [C01.rebuilt], fun hm => hi (C10.add_inv _ _ _ _ _ hm ha)⟩
+
+/-- an entry of a rebuilt column comes from a name row and a present value at the same position -/
+theorem mem_rebuilt (names : List NameRow) (pc : List (Option Obj)) (e : MdEntry) (h : e ∈ C01.rebuilt names pc) :
+    ∃ q ∈ names.zip pc, ∃ v, q.2 = some v ∧ e = ⟨cstr q.1.name, some v, q.1.dflt⟩ := by
+  induction names generalizing pc with
+  | nil => simp [C01.rebuilt] at h
+  | cons r rs ih =>
+    cases pc with
+    | nil => simp [C01.rebuilt] at h
+    | cons o os =>
+      cases o with
+      | none =>
+        simp only [C01.rebuilt] at h
+        obtain ⟨q, hq, v, hv, he⟩ := ih os h
+        exact ⟨q, by simp [hq], v, hv, he⟩
+      | some v =>
+        simp only [C01.rebuilt, List.mem_cons] at h
+        rcases h with h | h
+        · exact ⟨(r, some v), by simp, v, rfl, h⟩
+        · obtain ⟨q, hq, v', hv, he⟩ := ih os h
+          exact ⟨q, by simp [hq], v', hv, he⟩
+
+theorem cstr_length_le (b : Bytes) : (cstr b).length ≤ b.length := by
+  unfold cstr; exact (List.takeWhile_sublist _).length_le
+
+theorem fitsStr_mono (c : Cfg) {a b : Nat} (h : a ≤ b) (hb : fitsStr c b) : fitsStr c a := by
+  unfold fitsStr at *; omega
+
+/-- the in-memory form the reader returns for a well-formed physical table-metadata section -/
+def readerTM (p : PhysTM) (cols : List Md) : TM :=
+  ⟨⟨p.table.map (fun e => ⟨e.1, some e.2.1, e.2.2⟩), false⟩, cols.map Md.freeze⟩
+
+theorem all2_mem {α β : Type} {R : α → β → Prop} {as : List α} {bs : List β} (h : All2 R as bs) :
+    ∀ b ∈ bs, ∃ a ∈ as, R a b := by
+  induction h with
+  | nil => simp
+  | cons hr _ ih =>
+    intro b hb
+    simp only [List.mem_cons] at hb
+    rcases hb with hb | hb
+    · subst hb; exact ⟨_, by simp, hr⟩
+    · obtain ⟨a, ha, hab⟩ := ih b hb; exact ⟨a, by simp [ha], hab⟩
+
+/-- Whatever the reader returns for a stream it accepts satisfies everything the writer and the
+    round-trip theorems ask of an API-built table (duplicate table-level names, which only the
+    reader can produce, included) as soon as its column metadata folds. -/
+theorem reader_output_api (c : Cfg) (p : PhysTM) (cols : List Md) (h : p.Ok c cols) (kept : List MdEntry)
+    (hfold : foldCols ((readerTM p cols).cols.flatMap (·.entries)) = .ok kept) :
+    C01.ApiTM c (readerTM p cols) kept := by
+  -- facts about the entries of a rebuilt column
+  have colFacts : ∀ col ∈ cols, C10.Inv col ∧ ∀ e ∈ col.entries,
+      (∃ r ∈ p.names, e.name = cstr r.name ∧ e.dflt = r.dflt ∧ ∃ v, e.value = some v ∧ MdObjOk c v ∧ v.tid = r.vt) := by
+    intro col hcol
+    obtain ⟨pc, _, hlen, hval, hb⟩ := all2_mem h.col col hcol
+    obtain ⟨he, hi⟩ := buildCol_entries p.names pc Md.empty col hlen hb
+    refine ⟨hi C10.inv_empty, ?_⟩
+    intro e hee
+    rw [he] at hee
+    simp only [Md.empty, List.nil_append] at hee
+    obtain ⟨q, hq, v, hv, rfl⟩ := mem_rebuilt _ _ e hee
+    have hqn : q.1 ∈ p.names := (List.of_mem_zip hq).1
+    obtain ⟨hok, ht⟩ := hval q hq v hv
+    exact ⟨q.1, hqn, rfl, rfl, v, rfl, hok, ht⟩
+  have hcolsMem : ∀ col ∈ (readerTM p cols).cols, ∃ col0 ∈ cols, col = col0.freeze := by
+    intro col hcol
+    simp only [readerTM, List.mem_map] at hcol
+    obtain ⟨c0, h0, rfl⟩ := hcol
+    exact ⟨c0, h0, rfl⟩
+  refine ⟨hfold, ?_, ?_, ?_, ?_, ?_, ?_, ?_⟩
+  · -- table-level entries: a value of count one, default of the same type
+    intro e he
+    simp only [readerTM, List.mem_map] at he
+    obtain ⟨x, hx, rfl⟩ := he
+    obtain ⟨_, hv, hd⟩ := h.table x hx
+    exact ⟨x.2.1, rfl, hv.2.1, fun d hdd => ⟨(hd d hdd).2, (hd d hdd).1.2.1⟩⟩
+  · intro col hcol
+    obtain ⟨c0, h0, rfl⟩ := hcolsMem col hcol
+    have := (colFacts c0 h0).1
+    exact ⟨this.uniq, this.single⟩
+  · intro e he
+    simp only [readerTM, List.mem_map] at he
+    obtain ⟨x, hx, rfl⟩ := he
+    obtain ⟨hn, hv, hd⟩ := h.table x hx
+    refine ⟨hn, ?_, ?_⟩
+    · intro v hvv; simp only [Option.some.injEq] at hvv; subst hvv; exact ⟨hv.1, hv.2.2⟩
+    · intro d hdd; exact ⟨(hd d hdd).1.1, (hd d hdd).1.2.2⟩
+  · intro col hcol e he
+    obtain ⟨c0, h0, rfl⟩ := hcolsMem col hcol
+    obtain ⟨r, hr, hn, hd, v, hv, hok, _⟩ := (colFacts c0 h0).2 e he
+    obtain ⟨hrn, _, hrd⟩ := h.names r hr
+    refine ⟨by rw [hn]; exact fitsStr_mono c (cstr_length_le _) hrn, ?_, ?_⟩
+    · intro v' hv'; rw [hv] at hv'; simp only [Option.some.injEq] at hv'; subst hv'; exact ⟨hok.1, hok.2.2⟩
+    · intro d hdd; rw [hd] at hdd; exact ⟨(hrd d hdd).1.1, (hrd d hdd).1.2.2⟩
+  · simpa [readerTM] using h.tcnt
+  · simpa [readerTM, h.clen] using h.ccnt
+  · -- the folded name list is no longer than the name list of the stream
+    obtain ⟨_, hall, hdist⟩ := fold_facts _ kept hfold
+    have hnd : (kept.map (fun k => cstr k.name)).Nodup := by
+      rw [List.nodup_iff_pairwise_ne, List.pairwise_map]
+      exact hdist.imp (fun hab => (nameEq_false_iff _ _).mp hab)
+    have hsub : kept.map (fun k => cstr k.name) ⊆ p.names.map (fun r => cstr r.name) := by
+      intro n hn
+      simp only [List.mem_map] at hn
+      obtain ⟨k, hk, rfl⟩ := hn
+      have := hall k hk
+      simp only [List.mem_flatMap] at this
+      obtain ⟨col, hcol, hkc⟩ := this
+      obtain ⟨c0, h0, rfl⟩ := hcolsMem col hcol
+      obtain ⟨r, hr, hnm, _⟩ := (colFacts c0 h0).2 k hkc
+      simp only [List.mem_map]
+      refine ⟨r, hr, ?_⟩
+      rw [hnm]
+      have : cstr (cstr r.name) = cstr r.name := by
+        have := (nameEq_iff (cstr r.name) r.name).mp (C11.nameEq_cstr r.name r.name ▸ by simp [Md.nameEq])
+        exact this
+      exact this.symm
+    have hle := hnd.length_le_of_subset hsub
+    simp only [List.length_map] at hle
+    have := h.ncnt
+    constructor <;> omega
+
+/-- C08, foreign streams: for every well-formed physical stream (any name list, names repeated
+    or unused, table-level names repeated, any order) — the layouts `C04.reads_wellformed` shows
+    the reader accepts — writing the structures the reader returned either fails in
+    `sbdf_tm_write` with INCORRECT_METADATA (and only when the column metadata does not fold), or
+    produces a stream that reads back with OK on every call to the same table-level entries, the
+    same slices, end-of-table at the end, and per column the same value under every name. -/
+theorem foreign_rewrite (c : Cfg) (p : PhysTM) (cols : List Md) (slices : List (List CS)) (h : p.Ok c cols)
+    (hn : ∀ s ∈ slices, s.length = p.cols.length) (hf : ∀ s ∈ slices, TSFits c s)
+    (fuel : Nat) (hfuel : slices.length < fuel) :
+    (∃ e, foldCols ((readerTM p cols).cols.flatMap (·.entries)) = .error e ∧
+        (writeTM c (readerTM p cols)).st = .incorrectMd) ∨
+    (∃ bytes cols', Emits (writeFile c ⟨readerTM p cols, slices.map (fun s => ⟨s.map some⟩)⟩) bytes ∧
+      readFileF c none fuel bytes.toArray =
+        ⟨.ok (1, 0), some (.ok ⟨(readerTM p cols).table, cols'⟩),
+         slices.map (fun s => ⟨s.map some⟩), some (.tableEnd bytes.length)⟩ ∧
+      All2 (fun (col col' : Md) => ∀ n, (col'.find n).bind (·.value) = (col.find n).bind (·.value))
+        (readerTM p cols).cols cols') := by
+  have htabW : C03.MdWritable (readerTM p cols).table := by
+    intro e he
+    simp only [readerTM, List.mem_map] at he
+    obtain ⟨x, hx, rfl⟩ := he
+    obtain ⟨_, hv, hd⟩ := h.table x hx
+    exact ⟨⟨x.2.1, rfl, C01.writable_of_fits hv.1⟩, fun d hdd => C01.writable_of_fits (hd d hdd).1.1⟩
+  cases hfold : foldCols ((readerTM p cols).cols.flatMap (·.entries)) with
+  | error e =>
+    exact .inl ⟨e, rfl, C01.unrepresentable_is_refused c _ e hfold htabW⟩
+  | ok kept =>
+    refine .inr ?_
+    have hapi := reader_output_api c p cols h kept hfold
+    have hn' : ∀ s ∈ slices, s.length = (readerTM p cols).cols.length := by
+      intro s hs; rw [hn s hs]; simp [readerTM, h.clen]
+    obtain ⟨bytes, hem, hread⟩ := C01.api_roundtrip c _ slices kept hapi hn' hf none [] fuel hfuel
+    simp only [List.append_nil] at hread
+    have hmask : slices.map (fun s => (⟨maskFrom none 0 s⟩ : TS)) = slices.map (fun s => ⟨s.map some⟩) := by
+      congr 1; funext s; rw [maskFrom_none]
+    rw [hmask] at hread
+    refine ⟨bytes, _, hem, hread, ?_⟩
+    obtain ⟨hrep, _, _⟩ := fold_facts _ kept hfold
+    -- pointwise over the columns
+    have key : ∀ (l : List Md), (∀ col ∈ l, col ∈ (readerTM p cols).cols) →
+        All2 (fun (col col' : Md) => ∀ n, (col'.find n).bind (·.value) = (col.find n).bind (·.value)) l
+          ((l.map (fun col => (⟨C01.rebuilt (kept.map (fun k => ⟨k.name, entryTid k, k.dflt⟩))
+            (kept.map (fun k => (col.find k.name).bind (·.value))), true⟩ : Md))).map Md.freeze) := by
+      intro l
+      induction l with
+      | nil => intro _; exact .nil
+      | cons col rest ih =>
+        intro hmem
+        refine .cons ?_ (ih (fun x hx => hmem x (by simp [hx])))
+        intro n
+        have := C01.rebuilt_lookup col kept (fun e he => by
+          obtain ⟨k, hk, hne, _⟩ := hrep e (by
+            simp only [List.mem_flatMap]; exact ⟨col, hmem col (by simp), he⟩)
+          exact ⟨k, hk, hne⟩) n
+        simpa [Md.freeze, Md.find] using this
+    exact key _ (fun _ hx => hx)
+
+theorem fits_int4 (a b c d : UInt8) : Obj.Fits {} ⟨2, [[a, b, c, d]]⟩ := by
+  unfold Obj.Fits
+  refine ⟨4, by rfl, ?_, by simp [Obj.count], by simp [Obj.count]; decide⟩
+  intro e he
+  simp only [List.mem_cons, List.mem_nil_iff, or_false] at he
+  subst he; rfl
+
+theorem fitsStr_one (x : UInt8) : fitsStr {} [x].length := by unfold fitsStr; simp only [List.length_singleton]; decide
+
+/-- non-vacuity: a foreign layout the library would never write (an unused name row, a repeated
+    table-level name) is well formed, and its column metadata folds -/
+example :
+    let p : PhysTM := ⟨[([97], ⟨2, [[1, 0, 0, 0]]⟩, none), ([97], ⟨2, [[2, 0, 0, 0]]⟩, none)],
+      [⟨[120], 10, none⟩, ⟨[121], 2, none⟩], [[none, some ⟨2, [[7, 0, 0, 0]]⟩]]⟩
+    ∃ cols, p.Ok {} cols ∧ ∃ kept, foldCols ((readerTM p cols).cols.flatMap (·.entries)) = .ok kept := by
+  refine ⟨[⟨[⟨[121], some ⟨2, [[7, 0, 0, 0]]⟩, none⟩], true⟩], ?_, _, rfl⟩
+  refine ⟨?_, ?_, by decide, by decide, by decide, ?_⟩
+  · intro e he
+    simp only [List.mem_cons, List.mem_nil_iff, or_false] at he
+    rcases he with rfl | rfl <;>
+      exact ⟨fitsStr_one _, ⟨fits_int4 _ _ _ _, by decide, by decide⟩, by intro d hd; cases hd⟩
+  · intro r hr
+    simp only [List.mem_cons, List.mem_nil_iff, or_false] at hr
+    rcases hr with rfl | rfl <;> exact ⟨fitsStr_one _, by decide, by intro d hd; cases hd⟩
+  · refine .cons ⟨rfl, ?_, rfl⟩ .nil
+    intro q hq x hx
+    simp only [List.zip_cons_cons, List.zip_nil_right, List.mem_cons, List.mem_nil_iff, or_false] at hq
+    rcases hq with rfl | rfl
+    · cases hx
+    · simp only [Option.some.injEq] at hx; subst hx
+      exact ⟨⟨fits_int4 _ _ _ _, by decide, by decide⟩, rfl⟩
+
+
+/-! the one accepted layout outside `PhysTM`: a table-level entry whose value is absent -/
+
+theorem seq_st_ne_ok_left {a b : WOut} (h : a.st ≠ .ok) : (a ++ b).st ≠ .ok := by
+  rw [WOut.append_err h]; exact h
+
+theorem seq_st_ne_ok_right {a b : WOut} (h : b.st ≠ .ok) : (a ++ b).st ≠ .ok := by
+  by_cases ha : a.st = .ok
+  · rw [(WOut.append_ok ha).2]; exact h
+  · exact seq_st_ne_ok_left ha
+
+theorem seqAll_st_ne_ok (ws : List WOut) (w : WOut) (hw : w ∈ ws) (h : w.st ≠ .ok) : (WOut.seqAll ws).st ≠ .ok := by
+  induction ws with
+  | nil => simp at hw
+  | cons x xs ih =>
+    simp only [WOut.seqAll]
+    simp only [List.mem_cons] at hw
+    rcases hw with rfl | hw
+    · exact seq_st_ne_ok_left h
+    · exact seq_st_ne_ok_right (ih hw)
+
+/-- The reader also accepts a table-level entry whose value is absent (presence flag 0), which no
+    `PhysTM` describes: writing it back fails — `sbdf_tm_write` does not return OK (the status is
+    INCORRECT_METADATA unless an earlier entry failed first). -/
+theorem absent_table_value_refused (c : Cfg) (tm : TM) (e : MdEntry) (he : e ∈ tm.table.entries)
+    (hv : e.value = none) : (writeTM c tm).st ≠ .ok := by
+  unfold writeTM
+  refine seq_st_ne_ok_left (seq_st_ne_ok_left (seq_st_ne_ok_right ?_))
+  refine seqAll_st_ne_ok _ (writeTableEntry c e) (List.mem_map_of_mem he) ?_
+  simp [writeTableEntry, hv]
 
 end Sbdf.C08
